@@ -1087,7 +1087,9 @@ class DigitalWaveform(Generic[TDigitalState]):
         return self._get_line_names()[column_index]
 
     def _set_line_name(self, column_index: int, value: str) -> None:
-        line_names = self._get_line_names()
+        # Edit a copy: if the value is rejected (join raises TypeError for a non-str), the cached
+        # names must not be left modified.
+        line_names = list(self._get_line_names())
         line_names[column_index] = value
         self._extended_properties[LINE_NAMES] = ", ".join(line_names)
 
